@@ -57,7 +57,11 @@ func NewResponseRecorder(w http.ResponseWriter) *ResponseRecorder {
 // WriteHeader records the status code and calls the
 // underlying ResponseWriter's WriteHeader method.
 func (r *ResponseRecorder) WriteHeader(status int) {
-	r.status = status
+	// informational headers (1xx such as 103 Early Hints) come before the
+	// response's status and are not it; 101 ends the HTTP exchange and is
+	if status >= 200 || status == http.StatusSwitchingProtocols {
+		r.status = status
+	}
 	r.ResponseWriterWrapper.WriteHeader(status)
 }
 
